@@ -964,3 +964,122 @@ Proof.
     + apply steps_same; [reflexivity|reflexivity|apply Inv_Q; exact HI].
   - inversion Hrun. subst. apply finish_ok; [exact HI|apply steps_refl, Inv_Q; exact HI].
 Qed.
+
+(** ---------- opening a pinner (rebuildIndexes) ---------- *)
+Lemma grows_refl s : grows s s.
+Proof. intros x e H. exact H. Qed.
+Lemma grows_trans s s' s'' : grows s s' -> grows s' s'' -> grows s s''.
+Proof. intros H1 H2 x e H. apply H2, H1, H. Qed.
+
+Lemma indexed_grows s s' r : grows s s' -> indexed s r -> indexed s' r.
+Proof. intros Hg [H1 H2]. split; [apply Hg; exact H1|]. intros Hn. apply (Hg IN). exact (H2 Hn). Qed.
+
+Lemma rebuild_one_ok p r :
+  OF (st p) -> uid (st p) -> In r (recs (st p)) ->
+  let p' := rebuild_one p r in
+  OF (st p') /\ recs (st p') = recs (st p) /\ grows (st p) (st p') /\ indexed (st p') r /\
+  mdirty p' = mdirty p /\ autosync p' = autosync p.
+Proof.
+  intros HO HU Hin. unfold rebuild_one.
+  pose proof (find_rec_uid _ _ HU Hin) as Hfr.
+  set (c := r_cid r). set (i := r_id r) in *.
+  set (stale := idx_of_mode (other_mode (r_mode r))). set (own := idx_of_mode (r_mode r)).
+  (* the stale branch never fires *)
+  assert (Hst : mm_has (c, i) (get_idx stale (st p)) = false).
+  { apply mm_has_false. intros H. destruct (HO _ _ _ H) as [q [Hq Hok]]. rewrite Hfr in Hq. inversion Hq. subst q.
+    unfold stale in Hok. destruct (r_mode r) eqn:Em; cbn [other_mode idx_of_mode entry_ok] in Hok; destruct Hok; congruence. }
+  rewrite Hst.
+  set (p1 := if mm_has (c, i) (get_idx own (st p)) then p else emit (WAddIdx own c i) p).
+  assert (H1 : OF (st p1) /\ recs (st p1) = recs (st p) /\ grows (st p) (st p1) /\
+               In (c, i) (get_idx own (st p1)) /\ mdirty p1 = mdirty p /\ autosync p1 = autosync p).
+  { unfold p1. destruct (mm_has (c, i) (get_idx own (st p))) eqn:E.
+    - apply mm_has_In in E. split; [exact HO|]. split; [reflexivity|]. split; [apply grows_refl|]. split; [exact E|]. split; reflexivity.
+    - assert (R : recs (apply_write (st p) (WAddIdx own c i)) = recs (st p)) by (unfold own; destruct (r_mode r); reflexivity).
+      split.
+      { apply of_addidx; [exact HO|]. exists r. split; [exact Hfr|]. unfold own, c. destruct (r_mode r) eqn:Em; split; auto. }
+      split; [exact R|]. split.
+      { intros x e He. cbn [emit st]. apply get_idx_add. left. exact He. }
+      split; [cbn [emit st]; apply get_idx_add; right; split; reflexivity|]. split; reflexivity. }
+  destruct H1 as (O1 & R1 & G1 & X1 & M1 & A1).
+  destruct (r_name r =? 0) eqn:En.
+  - apply N.eqb_eq in En. split; [exact O1|]. split; [exact R1|]. split; [exact G1|].
+    split; [split; [exact X1|intros Hn; contradiction]|]. split; assumption.
+  - apply N.eqb_neq in En. destruct (mm_has (r_name r, i) (idxN (st p1))) eqn:E.
+    + apply mm_has_In in E. split; [exact O1|]. split; [exact R1|]. split; [exact G1|].
+      split; [split; [exact X1|intros _; exact E]|]. split; assumption.
+    + assert (Hfr1 : find_rec i (st p1) = Some r) by (rewrite (find_rec_recs i (st p1) (st p)); [exact Hfr|exact R1]).
+      split.
+      { apply of_addidx; [exact O1|]. exists r. split; [exact Hfr1|]. split; [reflexivity|exact En]. }
+      split; [cbn [emit st]; exact R1|]. split.
+      { intros x e He. cbn [emit st]. apply get_idx_add. left. apply G1. exact He. }
+      split.
+      { split.
+        - cbn [emit st]. apply get_idx_add. left. exact X1.
+        - intros _. cbn [emit st]. apply (get_idx_add IN IN). right. split; reflexivity. }
+      split; assumption.
+Qed.
+
+Lemma rebuild_fold_ok : forall l p,
+  OF (st p) -> uid (st p) -> (forall r, In r l -> In r (recs (st p))) ->
+  let p' := fold_left rebuild_one l p in
+  OF (st p') /\ recs (st p') = recs (st p) /\ grows (st p) (st p') /\
+  (forall r, In r l -> indexed (st p') r) /\ mdirty p' = mdirty p /\ autosync p' = autosync p.
+Proof.
+  induction l as [|r l IH]; intros p HO HU Hsub; cbn [fold_left].
+  - split; [exact HO|]. split; [reflexivity|]. split; [apply grows_refl|]. split; [intros r []|]. split; reflexivity.
+  - destruct (rebuild_one_ok p r HO HU (Hsub r (or_introl eq_refl))) as (O1 & R1 & G1 & X1 & M1 & A1).
+    set (p1 := rebuild_one p r) in *.
+    destruct (IH p1 O1) as (O2 & R2 & G2 & X2 & M2 & A2).
+    + apply (uid_same (st p)); [symmetry; exact R1|exact HU].
+    + intros q Hq. rewrite R1. apply Hsub. right. exact Hq.
+    + split; [exact O2|]. split; [rewrite R2; exact R1|]. split; [eapply grows_trans; eassumption|].
+      split.
+      { intros q [Hq|Hq]; [subst q; apply (indexed_grows (st p1)); assumption|apply X2; exact Hq]. }
+      split; [rewrite M2; exact M1|rewrite A2; exact A1].
+Qed.
+
+(** a pinner opened on a recoverable datastore is in a good state, holds the same records,
+    and its datastore is consistent *)
+Lemma open_ok C s :
+  PrefInv s -> Prot C s ->
+  Inv C (open_pinner s) /\ recs (st (open_pinner s)) = recs s /\ mdirty (open_pinner s) = false.
+Proof.
+  intros (HO & HU & Hd) HP. unfold open_pinner.
+  assert (Hclean : forall b, dflag s = b -> b <> Some true ->
+            Inv C (mkpst s false true []) /\ recs (st (mkpst s false true [])) = recs s /\ mdirty (mkpst s false true []) = false).
+  { intros b Hb Hne. split; [|split; reflexivity]. unfold Inv. cbn [st mdirty].
+    split; [exact HO|]. split; [exact HU|]. split; [destruct Hd as [Hd|Hd]; [congruence|exact Hd]|].
+    split; [intros X; discriminate|exact HP]. }
+  destruct (dflag s) as [[|]|] eqn:Ed; try (apply (Hclean _ eq_refl); discriminate).
+  unfold rebuild. set (p0 := mkpst s true true []).
+  destruct (rebuild_fold_ok (recs (st p0)) p0 HO HU (fun r H => H)) as (O1 & R1 & G1 & X1 & M1 & A1).
+  set (p1 := fold_left rebuild_one (recs (st p0)) p0) in *.
+  assert (I1 : Inv C p1).
+  { unfold Inv. split; [exact O1|]. split; [apply (uid_same s); [symmetry; exact R1|exact HU]|].
+    split; [intros r Hr; apply X1; rewrite <- R1; exact Hr|].
+    split.
+    { intros _. assert (Hdf : forall l p, dflag (st (fold_left rebuild_one l p)) = dflag (st p)).
+      { induction l as [|r l IH]; intros p; [reflexivity|]. cbn [fold_left]. rewrite IH. unfold rebuild_one.
+        repeat match goal with |- context [if ?b then _ else _] => destruct b end;
+          cbn [emit st]; repeat (rewrite dflag_keep by (intros b; discriminate)); reflexivity. }
+      fold p1. unfold p1. rewrite Hdf. exact Ed. }
+    apply (prot_same C s); [symmetry; exact R1|exact HP]. }
+  destruct (flush_pins_ok C true p1 I1) as (J1 & _ & [Jr _] & _).
+  split; [exact J1|]. split; [rewrite <- Jr; exact R1|].
+  unfold flush_pins. rewrite A1. cbn [autosync p0 orb]. unfold set_clean. rewrite M1. cbn [mdirty p0]. reflexivity.
+Qed.
+
+Lemma Inv_consistent C p : Inv C p -> consistent (st p) = true.
+Proof. intros (H1 & H2 & H3 & _). apply consistent_of; assumption. Qed.
+
+Lemma Inv_pinned C p c : Inv C p -> In c C -> pinned (st p) c = true.
+Proof.
+  intros (H1 & H2 & H3 & _ & H5) Hc. destruct (H5 c Hc) as [r [Hr Hrc]]. eapply pinned_of; eassumption.
+Qed.
+
+Lemma Inv_empty : Inv [] (open_pinner empty_store).
+Proof.
+  apply open_ok.
+  - split; [intros x k i H; destruct x; destruct H|]. split; [constructor|]. right. intros r [].
+  - intros c [].
+Qed.
